@@ -36,8 +36,19 @@ func Content(v roaring.VerifView) *model.Set32 {
 		case 2:
 			for j := 0; j+1 < len(ch.Runs); j += 2 {
 				st, ln := int(ch.Runs[j]), int(ch.Runs[j+1])
-				for x := st; x <= st+ln && x <= 65535; x++ {
-					c[x>>6] |= 1 << (uint(x) & 63)
+				en := st + ln
+				if en > 65535 {
+					en = 65535
+				}
+				for w := st >> 6; w <= en>>6; w++ {
+					mask := ^uint64(0)
+					if w == st>>6 {
+						mask &= ^uint64(0) << (uint(st) & 63)
+					}
+					if w == en>>6 {
+						mask &= ^uint64(0) >> (63 - uint(en)&63)
+					}
+					c[w] |= mask
 				}
 			}
 		}
